@@ -6,6 +6,7 @@ import (
 
 	"github.com/golang/geo/r2"
 	"github.com/golang/geo/r3"
+	"github.com/golang/geo/s1"
 	"github.com/golang/geo/s2"
 
 	"verif/mc/core"
@@ -107,6 +108,23 @@ func c06Collections(c *core.Ctx) []c06Coll {
 		cellShapes = append(cellShapes, c06Shape{fmt.Sprintf("cell-loop-%d", i), func() s2.Shape { return s2.LoopFromCell(s2.CellFromCellID(id)) }, polyLoops, false})
 	}
 	out = append(out, c06Coll{"cell-boundary-loops", cellShapes})
+	// a small dense loop inside a loop that covers whole cube faces: while the index is built the
+	// interior tracker is inside a shape across ranges of cells that hold no edges at all, and the
+	// first cell with edges after such a range may start exactly where the range ends
+	lats := core.Pick(c, []float64{-62, 20.453536800003633, 47}, []float64{-62, -20.45, 20.453536800003633, 47, 73})
+	lngs := core.Pick(c, []float64{-170, -0.5780515406487723, 33, 101}, []float64{-170, -95, -0.5780515406487723, 33, 101, 160})
+	for _, la := range lats {
+		for _, lo := range lngs {
+			for _, r := range []float64{0.38983608926036684, 0.07} {
+				ctr := lattice.LL(la, lo)
+				r := r
+				out = append(out, c06Coll{fmt.Sprintf("small-loop-inside-huge-loop@%g,%g r=%g", la, lo, r), []c06Shape{
+					{"huge 12-gon (radius 150 deg)", func() s2.Shape { return s2.RegularLoop(ctr, s1.Degree*150, 12) }, polyLoops, false},
+					{"small 48-gon", func() s2.Shape { return s2.RegularLoop(ctr, s1.Angle(r)*s1.Degree, 48) }, polyLoops, false},
+				}})
+			}
+		}
+	}
 	return out
 }
 
